@@ -1,32 +1,34 @@
 /-
   C09 — Harmonic transforms follow the volume convention and all backends agree.
   Property theorems only; helper lemmas and the vocabulary (GridOK, ConjOK, ScalOK, InBox, boxSum, gridSum, IsReal)
-  live in Lemmas/Harmonic.lean; the executable model in Model/Harmonic.lean.
-  All theorems are for every axis length n1,n2,n3 ≥ 1, every commutative domain K with primitive roots, every
-  spectator size — no bounds.
+  live in Lemmas/Harmonic*.lean; the executable model in Model/Harmonic.lean.
+  All theorems hold for every axis length n1,n2,n3 ≥ 1, every commutative domain K with primitive roots, every
+  spectator size — no bounds.  Obligations are listed in harness/props/c09.py.
 -/
-import NiftyVerif.Lemmas.Harmonic
+import NiftyVerif.Lemmas.HarmonicZero
 
 namespace NiftyVerif.C09
-open NiftyVerif.Harmonic
+open NiftyVerif.Harmonic Finset
 
-variable {K : Type} [CommRing K] [IsDomain K]
+variable {K : Type} [CommRing K]
 
 /-- F Fᴴ = n·1 for the unnormalised DFT matrix of a primitive n-th root -/
-theorem dft_orthogonal (w wb : K) (n : Nat) (hn : 0 < n) (h : IsPrimitiveRoot w n) (hb : w * wb = 1)
+theorem dft_orthogonal [IsDomain K] (w wb : K) (n : Nat) (h : IsPrimitiveRoot w n) (hb : w * wb = 1)
     (k l : Nat) (hk : k < n) (hl : l < n) :
     sumTo n (fun j => dftMat w k j * dftMat wb j l) = if k = l then (n : K) else 0 := by
-  sorry
+  rw [sumTo_eq_sum]; exact dft_orth w wb n h hb k l hk hl
 
 /-- the zero mode of the transform of a position-space field is its integral Σ x·dvol
     (TIMES on a position-space domain; INVERSE_TIMES when the operator's domain is the harmonic one) -/
 theorem fft_zero_mode_is_integral (g : Grid K) (dvolD dvolT : K) (x : Tensor K) (p q : Nat) :
     fftApply g false dvolD dvolT 1 x ⟨p, 0, 0, 0, q⟩ = gridSum g p q (fun i => x i * dvolD)
     ∧ fftApply g true dvolD dvolT 4 x ⟨p, 0, 0, 0, q⟩ = gridSum g p q (fun i => x i * dvolT) := by
-  sorry
+  obtain ⟨c1, _, _, _, _, _, c7, _⟩ := fftApply_cases g dvolD dvolT x
+  rw [c1, c7]
+  exact ⟨posBranch_zero g dvolD x p q, posBranch_zero g dvolT x p q⟩
 
 /-- the four code formulas are T, Tᴴ, T⁻¹, T⁻ᴴ of ONE T (= mode 1), given dvol_t·dvol_d·ncells = 1 -/
-theorem fft_modes_consistent (g : Grid K) (hg : GridOK g) (dh : Bool) (dvolD dvolT : K)
+theorem fft_modes_consistent [IsDomain K] (g : Grid K) (hg : GridOK g) (dh : Bool) (dvolD dvolT : K)
     (hv : dvolT * dvolD * (g.ncells : K) = 1)
     (σ : K →+* K) (hσ : ConjOK σ g) (hσD : σ dvolD = dvolD) (hσT : σ dvolT = dvolT)
     (x y : Tensor K) (P Q : Nat) :
@@ -41,37 +43,83 @@ theorem fft_modes_consistent (g : Grid K) (hg : GridOK g) (dh : Bool) (dvolD dvo
         = boxSum P g Q (fun i => σ (fftApply g dh dvolD dvolT 2 y i) * x i)
     ∧ boxSum P g Q (fun i => σ (y i) * fftApply g dh dvolD dvolT 4 x i)
         = boxSum P g Q (fun i => σ (fftApply g dh dvolD dvolT 8 y i) * x i) := by
-  sorry
+  have hv' : dvolD * dvolT * (g.ncells : K) = 1 := by rw [mul_comm dvolD dvolT]; exact hv
+  have cs := fun z => fftApply_cases g dvolD dvolT z
+  simp only [boxSum_eq]
+  cases dh
+  · refine ⟨fun i hi => ?_, fun i hi => ?_, fun i hi => ?_, fun i hi => ?_, ?_, ?_⟩
+    · rw [(cs x).1, (cs _).2.2.1]; exact harm_pos g hg _ _ hv' x i hi
+    · rw [(cs x).2.2.1, (cs _).1]; exact pos_harm g hg _ _ hv x i hi
+    · rw [(cs x).2.1, (cs _).2.2.2.1]; exact pos_harm g hg _ _ hv' x i hi
+    · rw [(cs x).2.2.2.1, (cs _).2.1]; exact harm_pos g hg _ _ hv x i hi
+    · rw [(cs x).1, (cs y).2.1]; exact pos_adjoint P Q g hg σ hσ dvolD hσD x y
+    · rw [(cs x).2.2.1, (cs y).2.2.2.1]; exact harm_adjoint P Q g hg σ hσ dvolT hσT x y
+  · refine ⟨fun i hi => ?_, fun i hi => ?_, fun i hi => ?_, fun i hi => ?_, ?_, ?_⟩
+    · rw [(cs x).2.2.2.2.1, (cs _).2.2.2.2.2.2.1]; exact pos_harm g hg _ _ hv' x i hi
+    · rw [(cs x).2.2.2.2.2.2.1, (cs _).2.2.2.2.1]; exact harm_pos g hg _ _ hv x i hi
+    · rw [(cs x).2.2.2.2.2.1, (cs _).2.2.2.2.2.2.2]; exact harm_pos g hg _ _ hv' x i hi
+    · rw [(cs x).2.2.2.2.2.2.2, (cs _).2.2.2.2.2.1]; exact pos_harm g hg _ _ hv x i hi
+    · rw [(cs x).2.2.2.2.1, (cs y).2.2.2.2.2.1]; exact harm_adjoint P Q g hg σ hσ dvolD hσD x y
+    · rw [(cs x).2.2.2.2.2.2.1, (cs y).2.2.2.2.2.2.2]; exact pos_adjoint P Q g hg σ hσ dvolT hσT x y
 
 /-- the Hartley matrix is symmetric and real, both conventions -/
 theorem hartley_symmetric (s : Scal K) (σ : K →+* K) (hs : ScalOK s σ) (w wb : K) (hw : σ w = wb) (hwb : σ wb = w)
     (c : Bool) (k j : Nat) :
-    hartleyMat s w wb c k j = hartleyMat s w wb c j k ∧ σ (hartleyMat s w wb c k j) = hartleyMat s w wb c k j := by
-  sorry
+    hartleyMat s w wb c k j = hartleyMat s w wb c j k
+    ∧ σ (hartleyMat s w wb c k j) = hartleyMat s w wb c k j := by
+  constructor
+  · unfold hartleyMat; rw [dftMat_symm w k j, dftMat_symm wb k j]
+  · unfold hartleyMat
+    cases c <;>
+      simp only [if_true, if_false, Bool.false_eq_true, map_mul, map_add, map_sub, map_one, map_neg,
+        conj_half s σ hs, hs.conjI, conj_dftMat σ w wb hw, conj_dftMat σ wb w hwb] <;> ring
 
-/-- the code's Hartley (Re F ± Im F of the multi-axis FFT, `hartley3`) on real input is the real-linear map
-    x ↦ ((1 ∓ i) F x + (1 ± i) F̄ x)/2; in one dimension its matrix is `hartleyMat` -/
+/-- the code's Hartley (Re F ± Im F of the FFT, `hartley3`) on real input is, for a one-axis grid, the product
+    with `hartleyMat` (multi-axis: it is a·F + b·F̄ of the multi-axis FFT, see `hartley3_eq` in Lemmas) -/
 theorem hartley_is_matrix (s : Scal K) (σ : K →+* K) (hs : ScalOK s σ) (g : Grid K) (hσ : ConjOK σ g) (c : Bool)
     (x : Tensor K) (hx : IsReal σ x) (i : Idx) (h2 : g.n2 = 1) (h3 : g.n3 = 1) (hi : i.j2 = 0 ∧ i.j3 = 0) :
     hartley3 s g c x i = sumTo g.n1 (fun j => hartleyMat s g.w1 g.wb1 c i.j1 j * x (i.set1 j)) := by
-  sorry
+  rw [hartley3_eq s σ hs g hσ c x hx, sumTo_eq_sum]
+  unfold F3 Fb3
+  beta_reduce
+  rw [h2, h3, tr3_one_axis g.n1 _ _ _ (dftMat_zero _ _) (dftMat_zero _ _) x i hi.1 hi.2,
+    tr3_one_axis g.n1 _ _ _ (dftMat_zero _ _) (dftMat_zero _ _) x i hi.1 hi.2]
+  rw [Finset.mul_sum, Finset.mul_sum, ← Finset.sum_add_distrib]
+  refine Finset.sum_congr rfl (fun j _ => ?_)
+  unfold hartleyMat hA hB
+  ring
 
 /-- H² = n·1 (matrix form, one axis), both sign conventions -/
-theorem hartley_involutive_up_to_n (s : Scal K) (σ : K →+* K) (hs : ScalOK s σ) (w wb : K) (n : Nat) (hn : 0 < n)
+theorem hartley_involutive_up_to_n [IsDomain K] (s : Scal K) (σ : K →+* K) (hs : ScalOK s σ) (w wb : K) (n : Nat)
     (h : IsPrimitiveRoot w n) (hb : w * wb = 1) (c : Bool) (k l : Nat) (hk : k < n) (hl : l < n) :
     sumTo n (fun j => hartleyMat s w wb c k j * hartleyMat s w wb c j l) = if k = l then (n : K) else 0 := by
-  sorry
+  rw [sumTo_eq_sum]
+  have hb' : wb * w = 1 := by rw [mul_comm]; exact hb
+  have e : ∀ j, hartleyMat s w wb c k j * hartleyMat s w wb c j l
+      = hA s c * hA s c * (dftMat w k j * dftMat w j l) + hB s c * hB s c * (dftMat wb k j * dftMat wb j l)
+        + hA s c * hB s c * (dftMat w k j * dftMat wb j l) + hA s c * hB s c * (dftMat wb k j * dftMat w j l) := by
+    intro j; unfold hartleyMat hA hB; ring
+  simp only [e, Finset.sum_add_distrib, ← Finset.mul_sum]
+  rw [dft_sq w n h k l, dft_sq wb n (prim_bar w wb n h hb) k l, dft_orth w wb n h hb k l hk hl,
+    dft_orth wb w n (prim_bar w wb n h hb) hb' k l hk hl]
+  have h1 := hAB_sq s σ hs c
+  have h2 := hAB_two s σ hs c
+  by_cases e1 : n ∣ k + l <;> by_cases e2 : k = l
+  · rw [if_pos e1, if_pos e2]; linear_combination (n : K) * h1 + (n : K) * h2
+  · rw [if_pos e1, if_neg e2]; linear_combination (n : K) * h1
+  · rw [if_neg e1, if_pos e2]; linear_combination (n : K) * h2
+  · rw [if_neg e1, if_neg e2]; ring
 
 /-- H² = ncells·1 for the code's multi-axis Hartley on real tensors (1-3 axes, any spectators), both conventions -/
-theorem hartley3_involutive_up_to_n (s : Scal K) (σ : K →+* K) (hs : ScalOK s σ) (g : Grid K) (hg : GridOK g)
-    (hσ : ConjOK σ g) (c : Bool) (x : Tensor K) (hx : IsReal σ x) (i : Idx) (hi : InBox g i) :
-    hartley3 s g c (hartley3 s g c x) i = (g.ncells : K) * x i := by
-  sorry
+theorem hartley3_involutive_up_to_n [IsDomain K] (s : Scal K) (σ : K →+* K) (hs : ScalOK s σ) (g : Grid K)
+    (hg : GridOK g) (hσ : ConjOK σ g) (c : Bool) (x : Tensor K) (hx : IsReal σ x) (i : Idx) (hi : InBox g i) :
+    hartley3 s g c (hartley3 s g c x) i = (g.ncells : K) * x i :=
+  hartley3_twice s σ hs g hg hσ c x hx i hi
 
 /-- HartleyOperator: modes 1,2 coincide (H real symmetric), modes 4,8 coincide, mode 4 inverts mode 1,
     and the operator is self-adjoint w.r.t. the bilinear pairing on real tensors -/
-theorem hartley_modes_consistent (s : Scal K) (σ : K →+* K) (hs : ScalOK s σ) (g : Grid K) (hg : GridOK g)
-    (hσ : ConjOK σ g) (c : Bool) (dvolD dvolT : K) (hv : dvolT * dvolD * (g.ncells : K) = 1)
+theorem hartley_modes_consistent [IsDomain K] (s : Scal K) (σ : K →+* K) (hs : ScalOK s σ) (g : Grid K)
+    (hg : GridOK g) (hσ : ConjOK σ g) (c : Bool) (dvolD dvolT : K) (hv : dvolT * dvolD * (g.ncells : K) = 1)
     (hσD : σ dvolD = dvolD) (hσT : σ dvolT = dvolT)
     (x y : Tensor K) (hx : IsReal σ x) (hy : IsReal σ y) (P Q : Nat) :
     hartleyCartesian s g c dvolD dvolT 2 x = hartleyCartesian s g c dvolD dvolT 1 x
@@ -82,26 +130,83 @@ theorem hartley_modes_consistent (s : Scal K) (σ : K →+* K) (hs : ScalOK s σ
         = boxSum P g Q (fun i => hartleyCartesian s g c dvolD dvolT 2 y i * x i)
     ∧ boxSum P g Q (fun i => y i * hartleyCartesian s g c dvolD dvolT 4 x i)
         = boxSum P g Q (fun i => hartleyCartesian s g c dvolD dvolT 8 y i * x i) := by
-  sorry
+  have m1 : ((1 : Nat) &&& 3 != 0) = true := by decide
+  have m2 : ((2 : Nat) &&& 3 != 0) = true := by decide
+  have m4 : ((4 : Nat) &&& 3 != 0) = false := by decide
+  have m8 : ((8 : Nat) &&& 3 != 0) = false := by decide
+  have scal : ∀ (d e : K) (hd : σ d = d) (z : Tensor K), IsReal σ z → ∀ i, InBox g i →
+      hartley3 s g c (fun i => hartley3 s g c z i * d) i * e = (d * e * (g.ncells : K)) * z i := by
+    intro d e hd z hz i hi
+    have hr : IsReal σ (fun i => hartley3 s g c z i * d) := by
+      intro i; rw [map_mul, hd, hartley3_real s σ hs g hσ c z hz i]
+    rw [hartley3_eq s σ hs g hσ c _ hr, hartley3_eq s σ hs g hσ c z hz]
+    have e' : (fun i => (hA s c * F3 g z i + hB s c * Fb3 g z i) * d)
+        = fun i => (d * hA s c) * F3 g z i + (d * hB s c) * Fb3 g z i := by funext i; ring
+    simp only [e', F3_add, Fb3_add, F3_smul, Fb3_smul]
+    rw [F3_F3 g hg z i hi, Fb3_Fb3 g hg z i hi, F3_Fb3 g hg z i hi, Fb3_F3 g hg z i hi]
+    linear_combination (d * e * (g.ncells : K) * z (negIdx g i)) * hAB_sq s σ hs c
+      + (d * e * (g.ncells : K) * z i) * hAB_two s σ hs c
+  simp only [boxSum_eq]
+  refine ⟨?_, ?_, fun i hi => ?_, fun i hi => ?_, ?_, ?_⟩
+  · unfold hartleyCartesian; simp only [m1, m2]
+  · unfold hartleyCartesian; simp only [m4, m8]
+  · unfold hartleyCartesian; simp only [m1, m4, if_true, if_false, Bool.false_eq_true]
+    rw [scal dvolD dvolT hσD x hx i hi]
+    linear_combination (x i) * hv
+  · unfold hartleyCartesian; simp only [m1, m4, if_true, if_false, Bool.false_eq_true]
+    rw [scal dvolT dvolD hσT x hx i hi]
+    linear_combination (x i) * hv
+  · unfold hartleyCartesian; simp only [m1, m2, if_true]
+    have := hartley3_transpose P Q s σ hs g hσ c x y hx hy
+    have l : ∀ i, y i * (hartley3 s g c x i * dvolD) = dvolD * (y i * hartley3 s g c x i) := by intro i; ring
+    have r : ∀ i, hartley3 s g c y i * dvolD * x i = dvolD * (hartley3 s g c y i * x i) := by intro i; ring
+    simp only [l, r, ← Finset.mul_sum, this]
+  · unfold hartleyCartesian; simp only [m4, m8, if_false, Bool.false_eq_true]
+    have := hartley3_transpose P Q s σ hs g hσ c x y hx hy
+    have l : ∀ i, y i * (hartley3 s g c x i * dvolT) = dvolT * (y i * hartley3 s g c x i) := by intro i; ring
+    have r : ∀ i, hartley3 s g c y i * dvolT * x i = dvolT * (hartley3 s g c y i * x i) := by intro i; ring
+    simp only [l, r, ← Finset.mul_sum, this]
 
 /-- complex input: the code's split H(Re x) + i·H(Im x) is the complex-linear extension of the real map:
-    it is additive and commutes with multiplication by i -/
+    multiplying the input by i (xr + i·xi ↦ -xi + i·xr) multiplies the output by i, and input with zero
+    imaginary part gives the real transform -/
 theorem hartley_complex_split (s : Scal K) (σ : K →+* K) (hs : ScalOK s σ) (g : Grid K) (c : Bool) (dvolD dvolT : K)
     (mode : Nat) (xr xi : Tensor K) (i : Idx) :
-    -- multiplying the input by i (xr + i xi ↦ -xi + i xr) multiplies the output by i
     hartleyApplyComplex s g c dvolD dvolT mode (fun j => -xi j) xr i
       = s.I * hartleyApplyComplex s g c dvolD dvolT mode xr xi i
-    -- real input (xi = 0) gives the real transform
-    ∧ hartleyApplyComplex s g c dvolD dvolT mode xr (fun _ => 0) i = hartleyCartesian s g c dvolD dvolT mode xr i := by
-  sorry
+    ∧ hartleyApplyComplex s g c dvolD dvolT mode xr (fun _ => 0) i
+      = hartleyCartesian s g c dvolD dvolT mode xr i := by
+  have neg : ∀ z : Tensor K, hartley3 s g c (fun j => -z j) i = -hartley3 s g c z i := by
+    intro z
+    have e : (fun j => -z j) = fun j => (-1 : K) * z j := by funext j; ring
+    unfold hartley3 Scal.re Scal.im
+    simp only [fftn3_eq, e, F3_smul, hs.conj, map_mul, map_neg, map_one]
+    cases c <;> simp only [if_true, if_false, Bool.false_eq_true] <;> ring
+  have zero : hartley3 s g c (fun _ => (0 : K)) i = 0 := by
+    have hz : F3 g (fun _ => (0 : K)) i = 0 := by
+      have := congrFun (F3_smul g 0 (fun _ => (0 : K))) i
+      simp only [zero_mul] at this
+      exact this
+    unfold hartley3 Scal.re Scal.im
+    simp only [fftn3_eq, hz, hs.conj, map_zero]
+    cases c <;> simp only [if_true, if_false, Bool.false_eq_true] <;> ring
+  unfold hartleyApplyComplex hartleyCartesian
+  constructor
+  · rw [neg xi]
+    linear_combination (-(hartley3 s g c xi i * (if mode &&& 3 != 0 then dvolD else dvolT))) * hs.II
+  · rw [zero]; ring
 
 /-- smoothing with σ = 0 is the identity (the code's shortcut), and the general formula H⁻¹ diag(k) H with the
     kernel value exp(0) = 1 everywhere is the identity too (so the shortcut is consistent with the formula) -/
-theorem smoothing_sigma0_id (s : Scal K) (σ : K →+* K) (hs : ScalOK s σ) (g : Grid K) (hg : GridOK g)
+theorem smoothing_sigma0_id [IsDomain K] (s : Scal K) (σ : K →+* K) (hs : ScalOK s σ) (g : Grid K) (hg : GridOK g)
     (hσ : ConjOK σ g) (c : Bool) (dvolD dvolT : K) (hv : dvolT * dvolD * (g.ncells : K) = 1)
-    (hσD : σ dvolD = dvolD) (kern : Tensor K) (x : Tensor K) (hx : IsReal σ x) :
+    (hσD : σ dvolD = dvolD) (hσT : σ dvolT = dvolT) (kern : Tensor K) (x : Tensor K) (hx : IsReal σ x) :
     smoothApply s g c dvolD dvolT true kern x = x
     ∧ (∀ i, InBox g i → smoothApply s g c dvolD dvolT false (fun _ => 1) x i = x i) := by
-  sorry
+  constructor
+  · simp only [smoothApply, if_true]
+  · intro i hi
+    simp only [smoothApply, Bool.false_eq_true, if_false, one_mul]
+    exact (hartley_modes_consistent s σ hs g hg hσ c dvolD dvolT hv hσD hσT x x hx hx 0 0).2.2.1 i hi
 
 end NiftyVerif.C09
